@@ -160,6 +160,17 @@ func c02Stress(c *mon.Ctx, r *mon.Rand) {
 		rec = pr.Recorder
 		opts.Reporter = pr
 	}
+	creators := r.Bool() // set up before the root exists: its ticker goroutine reads rec.Delay
+	if creators {
+		var dn uint64
+		rec.Delay = func(k mon.EvKind) {
+			if k == mon.EvAllocGauge {
+				if n := atomic.AddUint64(&dn, 1); n%3 == 0 {
+					time.Sleep(time.Duration(50+n%250) * time.Microsecond)
+				}
+			}
+		}
+	}
 	interval := time.Duration(r.Range(50, 200)) * time.Microsecond
 	prof := mon.RandomProfile(r, []int{tally.VerifGaugeBetweenStores, tally.VerifGaugeSwapped, tally.VerifRegScopeReported, tally.VerifPassLocked}, r.Intn(2))
 	inj := mon.NewDelayInjector(r.U64(), prof, true)
@@ -175,7 +186,7 @@ func c02Stress(c *mon.Ctx, r *mon.Rand) {
 		gauges[i] = sc.Gauge(fmt.Sprintf("g%d", i))
 		names[i] = fmt.Sprintf("s%d.g%d", i%5, i)
 	}
-	desc := map[string]interface{}{"cached": cached, "interval_us": interval.Microseconds(), "gauges": G}
+	desc := map[string]interface{}{"cached": cached, "interval_us": interval.Microseconds(), "gauges": G, "concurrent_first_use_of_other_gauges": creators}
 	c.LogCase(fmt.Sprint(desc))
 	epochs := 60
 	last := make([]uint64, G)
@@ -212,10 +223,26 @@ func c02Stress(c *mon.Ctx, r *mon.Rand) {
 				}
 			}()
 		}
+		// half of the runs: another goroutine keeps making the first use of new
+		// gauges in the same scopes (a slow AllocateGauge holds the scope's gauge
+		// lock) - also while the deciding pass runs
+		var stopCreate int32
+		var wgC sync.WaitGroup
+		if creators {
+			wgC.Add(1)
+			go func(e int) {
+				defer wgC.Done()
+				for k := 0; atomic.LoadInt32(&stopCreate) == 0 && k < 400; k++ {
+					root.SubScope(fmt.Sprintf("s%d", k%5)).Gauge(fmt.Sprintf("new-e%d-%d", e, k))
+				}
+			}(e)
+		}
 		wgU.Wait()
 		atomic.StoreInt32(&stop, 1)
 		wgR.Wait()
 		tally.VerifReportPass(root)
+		atomic.StoreInt32(&stopCreate, 1)
+		wgC.Wait()
 		for i := 0; i < G; i++ {
 			if updates[i] == 0 {
 				continue
